@@ -98,6 +98,7 @@ _DUMP_DIR = os.environ.get("VERIF_DUMP_QUERIES")
 _DUMP_EVERY = int(os.environ.get("VERIF_DUMP_EVERY", "50"))
 _DUMP_MAX = int(os.environ.get("VERIF_DUMP_MAX", "40"))
 _DUMPED = 0
+HEARTBEAT = [None]  # the driver's worker sets a callable: called after every solver answer
 
 
 class Engine:
@@ -131,6 +132,8 @@ class Engine:
         self.solver_s += time.time() - t
         if r == z3.unknown:
             self.n_unknown += 1
+        if HEARTBEAT[0] is not None:
+            HEARTBEAT[0]()
         if _DUMP_DIR and self.n_queries % _DUMP_EVERY == 0:
             self._dump(extra, r)
         return r
